@@ -26,7 +26,9 @@ impl DapClient {
         let deadline = Instant::now() + timeout;
         let stream = loop {
             match TcpStream::connect(("127.0.0.1", port)) {
-                Ok(s) => break s,
+                // (never talk to ourselves: a TCP self-connection)
+                Ok(s) if s.local_addr().map(|a| a.port() != port).unwrap_or(true) => break s,
+                Ok(_) => {}
                 Err(_) => {
                     if Instant::now() > deadline {
                         return None;
